@@ -7,7 +7,8 @@ MC : spec/Strands.tla (fork_strand / super_tick / pin_support / compare / plan_w
      policies, a failure at every settlement step; thorough adds a second strand (sibling or chained)
      with a support pin, and re-settlement.  Invariants: ForkIsExactPrefix, NoSharedHeads, LaneIsolation
      (both directions), PlanIsPure, SettleAllOrNothing, ImportedSlotsTakeStrandValues,
-     ParentChangedSlotsNeverOverwritten, BlockingIsSticky, ParentStaysReplayable.
+     ParentChangedSlotsNeverOverwritten, BlockingIsSticky, ParentStaysReplayable, ImportsReplayCleanly
+     (an import equals re-running its tick on the parent basis; holds since /repo de1c2a1).
 RP : every exported behaviour is replayed into the real WorldlineRuntime / ProvenanceService / Engine
      (harness c15): fork_strand, ingest + super_tick with a table-driven cmd/ rule, pin_support,
      SettlementService::{compare, plan_with_policy, settle_with_policy}.  The harness decides the property
@@ -69,13 +70,14 @@ def run(tier, replay=None):
                 raise ToolError(f"{cfg}: nothing exported")
             runs.append((cfg.replace(".cfg", ""), [c for _, c in res.lines]))
         if tier != "quick":
-            # the model of the code as built does NOT satisfy "an import has the effect its tick would have
-            # on the parent basis"; keep the counterexample current
+            # documentation: with the clean-overlap test as it was before /repo de1c2a1 (AsBuiltClean = TRUE) the
+            # model violates ImportsReplayCleanly (findings F8 stale read / F9 dropped write); the repaired law
+            # is checked as an invariant in every other cfg
             res = tlc("MC_C15", ASBUILT, workers=4, timeout=3600, tags=("CASE",), heap="4g",
                       java_opts=f"-Djava.io.tmpdir={os.path.join(WORK, 'tlc')}")
             ck.add_tlc(res)
-            ck.notes.append({"asbuilt_model": "ImportsReplayCleanly " + ("violated (expected: clean-overlap imports of stale reads / dropped writes)"
-                                                                        if res.violation == "ImportsReplayCleanly" else f"NOT violated ({res.violation})")})
+            ck.notes.append({"pre_repair_model": "ImportsReplayCleanly " + ("violated by the pre-de1c2a1 clean-overlap test, as documented"
+                                                                           if res.violation == "ImportsReplayCleanly" else f"NOT violated ({res.violation})")})
     total = nontrivial = drift = 0
     agg = {"ticks": 0, "imports": 0, "conflicts": 0, "plurals": 0, "clean_overlap": 0, "obstructed": 0, "unlawful": 0,
            "fail_points": 0, "shell_fail": 0}
